@@ -267,7 +267,7 @@ class StatusPrinter(object):
         self.last_printed_len = 0
 
     def print_status(self, s):
-        self.file.write('\\r'+s+' '*max(self.last_printed_len-len(s), 0))
+        self.file.write('\\r'+s+' '*H_pad)
         self.file.flush()
         self.last_printed_len = len(s)
 '''
@@ -441,7 +441,11 @@ def _calls():
 
     def fmt(name):
         return lambda args, kw: "(%s, [%s])" % (name, "; ".join(args))
-    c = {"int": {"emit": ident, "kw": ()}}
+    def zmax(args, kw):
+        if len(args) != 2:
+            raise Untranslatable("max() with %d arguments" % len(args))
+        return "(Z.max %s %s)" % tuple(args)
+    c = {"int": {"emit": ident, "kw": ()}, "max": {"emit": zmax, "kw": ()}}
     for name in FMT.values():
         c["__fmt_" + name] = {"emit": fmt(name), "kw": ()}
     return c
@@ -607,6 +611,67 @@ def _fallback(s, where):
     raise Untranslatable("%s: handler of `except TypeError` is neither `total = None` nor a raise: %s" % (where, ast.unparse(s)))
 
 
+METER_PARAMS = {"n": "MN", "total": "MTotal", "elapsed": "MElapsed"}
+
+
+def meter_divisions(stmts, branch_atom):
+    """every division of the statements with the path condition it is evaluated under, restricted to the tests that
+    mention only the parameters n / total / elapsed (other tests are dropped: the recorded path is weaker, so a
+    proof that no recorded division raises is still a proof for the code)"""
+    out = []
+
+    def atom(t):
+        if isinstance(t, ast.Name) and t.id == "n":
+            return "ANTrue"
+        if isinstance(t, ast.Name) and t.id == "total":
+            return "ATotalTrue"
+        if isinstance(t, ast.Compare) and ast.unparse(t) == "elapsed > 0":
+            return "AElapsedPos"
+        return None
+
+    def expr(e, path):
+        if isinstance(e, ast.IfExp):
+            expr(e.test, path)
+            a = atom(e.test)
+            expr(e.body, path + ([a] if a else []))
+            expr(e.orelse, path)
+            return
+        if isinstance(e, (ast.BoolOp, ast.Lambda, ast.ListComp, ast.GeneratorExp, ast.DictComp, ast.SetComp)):
+            raise Untranslatable("format_meter: %s in the bar branch" % type(e).__name__)
+        if isinstance(e, ast.BinOp) and isinstance(e.op, (ast.Div, ast.FloorDiv, ast.Mod)):
+            formatting = isinstance(e.op, ast.Mod) and (isinstance(e.right, ast.Tuple) or
+                                                       (isinstance(e.left, ast.Constant) and isinstance(e.left.value, str)))
+            if not formatting:
+                if not (isinstance(e.right, ast.Name) and e.right.id in METER_PARAMS):
+                    raise Untranslatable("format_meter: division by something other than n / total / elapsed: " + ast.unparse(e))
+                out.append((METER_PARAMS[e.right.id], list(path)))
+        for ch in ast.iter_child_nodes(e):
+            if isinstance(ch, ast.expr):
+                expr(ch, path)
+            elif isinstance(ch, ast.FormattedValue):
+                expr(ch.value, path)
+
+    def walk(ss, path):
+        for st in ss:
+            if isinstance(st, ast.If):
+                expr(st.test, path)
+                a = atom(st.test)
+                walk(st.body, path + ([a] if a else []))
+                walk(st.orelse, path)
+            elif isinstance(st, ast.Assign):
+                for t in st.targets:
+                    if not isinstance(t, ast.Name) or t.id in METER_PARAMS:
+                        raise Untranslatable("format_meter: assignment to %s in the bar branch" % ast.unparse(t))
+                expr(st.value, path)
+            elif isinstance(st, (ast.Return, ast.Expr)):
+                if st.value is not None:
+                    expr(st.value, path)
+            else:
+                raise Untranslatable("format_meter: statement %s in the bar branch" % type(st).__name__)
+    walk(stmts, [branch_atom])
+    return out
+
+
 def gen_pbar(tree):
     out = ""
     h = match_function(tree, T_PBAR)
@@ -631,7 +696,18 @@ def gen_pbar(tree):
     out += definition("gen_sbar_i_step", [("i", "Z")], "Z", zexpr(bh["H_i_step"], {"i": "Z"}))
     match_function(tree, T_PRANGE)
     match_function(tree, T_PMAP)
-    match_function(tree, T_STATUS, cls=True)
+    hst = match_function(tree, T_STATUS, cls=True)
+    pad = copy.deepcopy(hst["H_pad"])
+    for x in ast.walk(pad):          # len(s) -> len_s
+        for f, v in ast.iter_fields(x):
+            if isinstance(v, list):
+                for j, y in enumerate(v):
+                    if isinstance(y, ast.Call) and ast.unparse(y) == "len(s)":
+                        v[j] = ast.Name(id="len_s", ctx=ast.Load())
+            elif isinstance(v, ast.Call) and ast.unparse(v) == "len(s)":
+                setattr(x, f, ast.Name(id="len_s", ctx=ast.Load()))
+    out += definition("gen_status_pad", [("self_last_printed_len", "Z"), ("len_s", "Z")], "Z",
+                      zexpr(pad, {"self_last_printed_len": "Z", "len_s": "Z"}))
     # format_interval: whole body
     fi = tint.find_function(ast.unparse(tree), "format_interval")
     if [a.arg for a in fi.args.args] != ["t"] or fi.args.defaults or fi.args.vararg or fi.args.kwarg:
@@ -643,6 +719,9 @@ def gen_pbar(tree):
     dump = hashlib.sha256("\n".join(ast.dump(s) for s in hm["L_bar"]).encode()).hexdigest()[:16]
     if dump != PINNED_BAR:
         raise Untranslatable("format_meter: the bar branch (float formatting) changed (pinned text %s, now %s)" % (PINNED_BAR, dump))
+    divs = meter_divisions(hm["L_bar"], "ATotalTrue")
+    out += "Definition gen_meter_divisions : list (mvar * list matom) :=\n  [%s].\n\n" % ";\n   ".join(
+        "(%s, [%s])" % (v, "; ".join(p)) for v, p in divs)
     cmp_ = bexpr(hm["H_cmp"], {"n": "Z", "total": "Z"})
     out += ("Definition gen_meter_total (n : Z) (total0 : option Z) : option Z :=\n"
             "  let total1 := match total0 with Some total => if %s then None else Some total | None => None end in\n"
@@ -654,7 +733,7 @@ HEADER = """(* GENERATED by harness/props/c20_translate.py from esutil/algorithm
    esutil/pbar.py of the tree under check -- do not edit.  Rewritten on every run of ./check C20;
    C20/Tie.v proves that every definition below equals the hand model for all inputs. *)
 From EsVerif.Common Require Import Base.
-From EsVerif.C20 Require Import Model Model2.
+From EsVerif.C20 Require Import Model Model2 Meter.
 
 """
 
